@@ -32,6 +32,7 @@ const F_TO_RC_PENDING: usize = 3;
 const F_RECOVERED_START: usize = 4;
 const F_SOURCE_EOF: usize = 5;
 const F_LAGGARD_OVERTAKES: usize = 6;
+const F_CLONE: usize = 7;
 
 const P_LEAD_EQ_CAP: usize = 0;
 const P_CAP1: usize = 1;
@@ -137,6 +138,26 @@ fn gen_op(r: &mut Rng, m: &Model, st: &mut Sched, rc: bool) -> Option<Op> {
         _ => Op::k(if r.bool() { O_PULL_A } else { O_PULL_B }),
     };
     Some(op)
+}
+
+/// Clone the whole un-split fork when its storage allows it (borrowed storage does not).
+pub trait ForkClone<S>: Sized {
+    fn clone_fork(f: &dasp_signal::Fork<S, Self>) -> Option<dasp_signal::Fork<S, Self>>;
+}
+impl<S: Clone, T: Clone> ForkClone<S> for Vec<T> {
+    fn clone_fork(f: &dasp_signal::Fork<S, Self>) -> Option<dasp_signal::Fork<S, Self>> {
+        Some(f.clone())
+    }
+}
+impl<S: Clone, T: Clone> ForkClone<S> for Box<[T]> {
+    fn clone_fork(f: &dasp_signal::Fork<S, Self>) -> Option<dasp_signal::Fork<S, Self>> {
+        Some(f.clone())
+    }
+}
+impl<'a, S, T> ForkClone<S> for &'a mut [T] {
+    fn clone_fork(_: &dasp_signal::Fork<S, Self>) -> Option<dasp_signal::Fork<S, Self>> {
+        None
+    }
 }
 
 trait Branches<F> {
@@ -314,7 +335,7 @@ fn epoch<F: TagFrame, B: Branches<F>>(
     }
 }
 
-fn drive<F: TagFrame, D: SliceMut<Element = F>>(
+fn drive<F: TagFrame, D: SliceMut<Element = F> + ForkClone<ProbeSignal<F>>>(
     storage: D,
     start: usize,
     src: &mut Source,
@@ -333,6 +354,7 @@ fn drive<F: TagFrame, D: SliceMut<Element = F>>(
         drift: 0,
     };
     let start_rc = src.cfg("start_rc", 0, 1, |r| r.chance(1, 6) as i64) == 1;
+    let clone_on_resplit = src.cfg("clone_on_resplit", 0, 1, |r| r.chance(1, 3) as i64) == 1;
     let (sig, pulls) = ProbeSignal::<F>::new(5, end);
     // an empty ring buffer whose start index may already have wrapped (recovered state)
     let rb = Bounded::from_raw_parts(start, 0, storage);
@@ -357,7 +379,16 @@ fn drive<F: TagFrame, D: SliceMut<Element = F>>(
         let mut br = fork.by_ref();
         match epoch(&mut br, false, &mut m, &mut st, end, &pulls, src, obs)? {
             Exit::End => return Ok(()),
-            Exit::Resplit => continue,
+            Exit::Resplit => {
+                // snapshot/restore: a clone of the un-split fork carries source, queue and flag
+                if clone_on_resplit {
+                    if let Some(c) = D::clone_fork(&fork) {
+                        obs.fault(F_CLONE);
+                        fork = c;
+                    }
+                }
+                continue;
+            }
             Exit::ToRc => to_rc = true,
         }
     }
@@ -414,6 +445,7 @@ impl Scenario for ForkScenario {
             "recovered ring buffer (empty, start != 0)",
             "source end-of-stream reached",
             "laggard overtakes in one burst (queue hand-over)",
+            "fork cloned between two splits (possibly with frames pending), the clone is used from then on",
         ]
     }
     fn probes(&self) -> &'static [&'static str] {
